@@ -10,8 +10,8 @@ CLASSES = {
     "C12": {"cache_changes_find", "cache_changes_len", "cache_budget", "panic", "trace_rejected"} | _pr.CLASSES["C12"],
 }
 CFGS = {
-    "quick": ["MC_RadixTree_quick.cfg", "MC_RadixTree_nonascii.cfg", "MC_RadixTree_paths.cfg", "MC_RadixTree_siblings.cfg", "MC_RadixTree_big.cfg", "MC_RadixTree_deepq.cfg", "MC_RadixTree_nest.cfg"],
-    "thorough": ["MC_RadixTree_quick.cfg", "MC_RadixTree_nonascii.cfg", "MC_RadixTree_paths.cfg", "MC_RadixTree_siblings.cfg", "MC_RadixTree_big.cfg", "MC_RadixTree_deep.cfg", "MC_RadixTree_nest.cfg", "MC_RadixTree_thoroughA.cfg", "MC_RadixTree_thoroughB.cfg"],
+    "quick": ["MC_RadixTree_quick.cfg", "MC_RadixTree_nonascii.cfg", "MC_RadixTree_paths.cfg", "MC_RadixTree_siblings.cfg", "MC_RadixTree_big.cfg", "MC_RadixTree_deepq.cfg", "MC_RadixTree_nest.cfg", ("MC_RadixTree_sim.cfg", 10, 9)],
+    "thorough": ["MC_RadixTree_quick.cfg", "MC_RadixTree_nonascii.cfg", "MC_RadixTree_paths.cfg", "MC_RadixTree_siblings.cfg", "MC_RadixTree_big.cfg", "MC_RadixTree_deep.cfg", "MC_RadixTree_nest.cfg", "MC_RadixTree_thoroughA.cfg", "MC_RadixTree_thoroughB.cfg", ("MC_RadixTree_sim.cfg", 150, 9)],
 }
 REPLAY = {p: {"driver": "radix", "trace_module": "Trace_RadixTree", "trace_cfg": "Trace_RadixTree.cfg"} for p in CLASSES}
 
@@ -34,11 +34,15 @@ def run_prop(prop, tier):
         c.extra["prefix_pairs_replayed"] = mc["replays"]
     # 2. the tree machine
     for cfg in CFGS[tier]:
+        sim = depth = None
+        if isinstance(cfg, tuple):      # seeded random long histories (-simulate num per worker, depth)
+            cfg, sim, depth = cfg
         if prop == "C12" and ("paths" in cfg or "siblings" in cfg or "nest" in cfg):
             continue    # universes without (or with hardly any) cache operation: they belong to C08
         cases = os.path.join(wd, cfg + ".cases.ndjson")
-        mc = tlc_mc("MC_RadixTree", cfg, wd, workers=12, cases_out=cases, timeout=6000, xmx="12g")
-        require_actions(mc, ["DoInsert", "DoRemove", "DoRetain", "DoCache"])
+        mc = tlc_mc("MC_RadixTree", cfg, wd, workers=4 if sim else 12, cases_out=cases, timeout=6000, xmx="12g", simulate=sim, depth=depth)
+        if not sim:
+            require_actions(mc, ["DoInsert", "DoRemove", "DoRetain", "DoCache"])
         c.add_mc(mc)
         # sanity of the model's regex semantics against the regex crate (tool error if they differ)
         rxc = os.path.join(wd, cfg + ".rx.cases.ndjson")
